@@ -44,12 +44,6 @@ Definition pop_post (h : heap) (a : option nat) (F : list nat) (m : T * tree) (g
                 nth_error h' ga = Some (G.mk_node x None None) /\
                 frame h h' F /\ length h' = length h.
 
-Lemma rel_map {A A' B} (P : A -> B -> Prop) (Q : A' -> B -> Prop) (k : A -> SM.res A') m g :
-  rel P m g -> (forall a b, P a b -> exists a', k a = SM.Ok a' /\ Q a' b) -> rel Q (SM.bind m k) g.
-Proof.
-  intros R I. destruct m; cbn [rel SM.bind] in *; auto.
-  destruct R as [b [E Pb]]. destruct (I a b Pb) as [a' [-> Qa]]. exists b. split; [exact E|exact Qa].
-Qed.
 
 Lemma pop_left_deep (a : tree) b c g gr x r :
   SM.pop_left (SM.Node (SM.Node (SM.Node a b c) g gr) x r) =
